@@ -81,6 +81,22 @@ func (Engine) Describe(prop string) kernel.Describe {
 		d.FaultKinds = []string{"delay/reorder", "loss", "duplication", "short context timeouts", "slow handlers", "yield hooks (buggify subset)"}
 		d.Assumptions = []string{"the bus delivers exactly once in strict configurations (go-perun's stated assumption); loss and duplication are only injected in relaxed runs",
 			"concurrent proposals on one channel from both sides legitimately time out; such runs fall under the relaxed oracle"}
+	case "C03":
+		d.Rule = "two real clients with real local watchers; scenario: 1-3 assets, balances, optional different funding agreement, challenge duration, app; up to 12 actions (payments either way with keyed accept/reject, sub-channel open / pay / finalise-and-close under a no-app parent), then cooperative (final) or dispute settlement with drawn first settler, gap and secondary flag. Oracle after both settled: account = before - agreed funding + balance in the newest transaction enabled by both (balances in sub-channels still locked included), holdings zero, funding debits equal the agreement, ledger conservation after every mutation, every Enabled event fully signed. Non-trivial: last common version >= 2; distinct = scenario digest x interleaving hash."
+		d.FaultKinds = []string{"delay/reorder", "slow handlers", "slow ledger calls", "late ledger events", "yield hooks (buggify subset)"}
+		d.Assumptions = []string{"the reference ledger's contract (DESIGN 3.2): signatures and tree shape verified, refutation does not extend the challenge period, withdraw must supply the registered states",
+			"sub-channels are opened only under no-app parents (the payment app forbids the funding update)",
+			"a Settle call that fails because not all registered events of the channel tree have arrived yet is repeated by the driver (counted as probe.settle_retry)"}
+	case "C04":
+		d.Rule = "as C03, but one side is semi-honest: its real client runs the protocol while an adversary registers earlier fully signed states from that client's Enabled history (version latest-1..latest-4, sub-states any signed state it holds) at drawn instants, synchronously or concurrently with the following updates; the honest side watches and settles when notified. Oracle: the concluded tree consists of states the honest client enabled, each at least as new as its newest at the moment its machine entered Registered; payout >= its balances there; Settle succeeds within the challenge period + 400 simulated seconds. Non-trivial: the honest side registered a refutation; distinct = scenario digest x interleaving hash."
+		d.FaultKinds = []string{"outdated_registration (adversary)", "delay/reorder", "slow handlers", "slow ledger calls", "late ledger events", "yield hooks"}
+		d.Assumptions = []string{"ledger and event latencies are bounded so that five refutation rounds fit into the shortest challenge period (1 s): the protocol's own assumption",
+			"the adversary deviates only by registering old signed states; its client does not run a watcher",
+			"known findings are matched by history shape (see known_findings.json)"}
+	case "C08":
+		d.Rule = "honest openings (ledger channels with drawn challenge duration up to 2^40 s, 1-3 assets, zero balances, funding agreement, app, aux; sub-channels) with scenario-controlled nonce shares, interleaved with crafted proposals that break exactly one validity condition, sent by a stranger or by the channel counterparty and passed through the real serializer. Oracles: identical parameters/ID/participant order/fully signed version-0 state equal to the proposal on both sides; different nonce shares => different IDs; handler never runs for a mutant, no channel is created from one, no panic, a later honest proposal succeeds. Non-trivial: at least one opening and (a mutant or a second opening)."
+		d.FaultKinds = append([]string{"delay/reorder", "yield hooks"}, c08Mutations...)
+		d.Assumptions = []string{"mutants that the serializer cannot encode or decode are outside the quantifier and only counted (probe.mutant_undecodable)"}
 	}
 	return d
 }
